@@ -863,6 +863,11 @@ class Evaluator:
                 return v
             if isinstance(v, Lin) and dotted == "bytearray":
                 return SBuf(f"{e.lineno}", v)
+            if isinstance(v, (list, STuple)) and dotted in ("bytes", "bytearray"):
+                items = v if isinstance(v, list) else v.items
+                if all(isinstance(x, Lin) for x in items):
+                    # bytes([a, b]): one octet per element
+                    return SBytes([Seg("int", Lin(1), value=x, order="little", signed=False, node=e) for x in items])
             if isinstance(v, Lin) and dotted == "bytes":
                 # bytes(n): n zero bytes, the same value as b"\x00" * n
                 return self._repeat_bytes(t.cast(SBytes, self.const_to_value(b"\x00")), v, e)
